@@ -32,7 +32,23 @@ func makePoly(rng *rand.Rand, kind int) ([]*big.Int, string) {
 	}
 	rm1 := new(big.Int).Sub(ref.R, bigOne)
 	name := ""
-	switch kind % 9 {
+	switch kind % 11 {
+	case 9:
+		name = "linear-limb-slope"
+		es := edgeScalars()
+		a, b := es[rng.Intn(len(es))], es[len(es)-30+rng.Intn(30)%len(es)]
+		if rng.Intn(2) == 0 {
+			b = new(big.Int).Sub(new(big.Int).Lsh(bigOne, uint(64*(1+rng.Intn(3)))), bigOne)
+		}
+		for i := range v {
+			v[i] = ref.AddR(a, ref.MulR(b, big.NewInt(int64(i))))
+		}
+	case 10:
+		name = "limb-edge-values"
+		es := edgeScalars()
+		for i := range v {
+			v[i] = es[rng.Intn(len(es))]
+		}
 	case 0:
 		name = "random"
 		for i := range v {
@@ -82,7 +98,7 @@ func makePoly(rng *rand.Rand, kind int) ([]*big.Int, string) {
 func makePolys(env *Env, rng *rand.Rand, m int, forceKinds ...int) []*polyDef {
 	out := make([]*polyDef, m)
 	for i := range out {
-		kind := rng.Intn(9)
+		kind := rng.Intn(11)
 		if rng.Intn(3) == 0 {
 			kind = 0
 		}
